@@ -1,6 +1,8 @@
 package main
 
 import (
+	"bufio"
+	"bytes"
 	"encoding/json"
 	"fmt"
 	"log/slog"
@@ -10,6 +12,8 @@ import (
 	"strings"
 	"time"
 
+	filehandler "github.com/goblimey/go-ntrip/file_handler"
+	"github.com/goblimey/go-ntrip/jsonconfig"
 	"github.com/goblimey/go-ntrip/rtcm/handler"
 	"github.com/goblimey/go-ntrip/rtcm/utils"
 
@@ -39,10 +43,14 @@ type timeCase struct {
 	Debug     bool   `json:"debug"`
 	// Split > 0: the first Split messages go through one HandleMessages call, the rest
 	// through a second HandleMessages call (or through GetMessage) on the SAME handler
-	Split      int       `json:"split,omitempty"`
-	RestFrames bool      `json:"rest_via_getmessage,omitempty"`
-	StartNs    int       `json:"start_extra_ns,omitempty"` // sub-millisecond part of the start time
-	Msgs       []timeMsg `json:"msgs"`
+	Split      int  `json:"split,omitempty"`
+	RestFrames bool `json:"rest_via_getmessage,omitempty"`
+	StartNs    int  `json:"start_extra_ns,omitempty"` // sub-millisecond part of the start time
+	// ViaFile: the recorded bytes go through the file handler (the way the applications
+	// read them), with this end-of-file tolerance in its configuration (0 = none)
+	ViaFile   bool      `json:"via_file_handler,omitempty"`
+	FileTolMs uint      `json:"file_handler_eof_tolerance_ms,omitempty"`
+	Msgs      []timeMsg `json:"msgs"`
 }
 
 func zoneOf(name string) *time.Location {
@@ -145,6 +153,31 @@ func execTime(c *child.Ctx, k timeCase, cj []byte, sigPrefix string) {
 					gots = append(gots, got{msg: &mm})
 				}
 			}
+		} else if k.ViaFile {
+			var all []byte
+			for _, f := range frames {
+				all = append(all, f...)
+			}
+			cfg := &jsonconfig.Config{}
+			if k.FileTolMs > 0 {
+				cfg = &jsonconfig.Config{WaitTimeOnEOFMilliseconds: 1, TimeoutOnEOFMilliSeconds: k.FileTolMs}
+			}
+			ch := make(chan handler.Message, 4)
+			fh := filehandler.New(ch, cfg)
+			go fh.Handle(start, bufio.NewReader(bytes.NewReader(all)))
+			done := make(chan struct{})
+			var msgs []handler.Message
+			go func() {
+				for m := range ch {
+					msgs = append(msgs, m)
+					tick()
+				}
+				close(done)
+			}()
+			waitOrHang(done, caseWatchdog, "file handler did not close the message channel")
+			for i := range msgs {
+				gots = append(gots, got{msg: &msgs[i]})
+			}
 		} else if k.ViaStream {
 			var all []byte
 			for _, f := range frames {
@@ -182,7 +215,7 @@ func execTime(c *child.Ctx, k timeCase, cj []byte, sigPrefix string) {
 			return
 		}
 		if m.Illegal {
-			if !k.ViaStream && !(k.Split > 0 && (i < k.Split || !k.RestFrames)) && g.err == nil {
+			if !k.ViaStream && !k.ViaFile && !(k.Split > 0 && (i < k.Split || !k.RestFrames)) && g.err == nil {
 				c.Violate(sigPrefix+"illegal-timestamp-not-an-error", fmt.Sprintf("message %d: %s timestamp %d is outside its legal range but no error was returned (SentAt %q)", i, cons, m.TS, g.msg.SentAt), cj)
 				return
 			}
@@ -194,7 +227,7 @@ func execTime(c *child.Ctx, k timeCase, cj []byte, sigPrefix string) {
 			continue
 		}
 		u := time.UnixMilli(m.TrueMs).UTC()
-		if !k.ViaStream && g.err != nil {
+		if !k.ViaStream && !k.ViaFile && g.err != nil {
 			c.Violate(sigPrefix+"valid-timestamp-rejected", fmt.Sprintf("message %d: %s timestamp %d (true time %s) was reported as an error: %v", i, cons, m.TS, u.Format(time.RFC3339Nano), g.err), cj)
 			return
 		}
@@ -220,6 +253,9 @@ func execTime(c *child.Ctx, k timeCase, cj []byte, sigPrefix string) {
 			return
 		}
 		c.Count("times_compared", 1)
+	}
+	if k.ViaFile {
+		c.Count("histories_through_the_file_handler", 1)
 	}
 }
 
@@ -468,6 +504,12 @@ func genHistoryAt(r *ref.SplitMix64, anyStartInWeek bool, forced *time.Time) (ti
 		k.Split = r.Range(1, len(k.Msgs)-1)
 		k.RestFrames = r.Chance(1, 2)
 		k.ViaStream = false
+	} else if r.Chance(1, 60) {
+		// the way the applications read a recording or a live feed
+		k.ViaFile, k.ViaStream = true, false
+		if r.Chance(1, 2) {
+			k.FileTolMs = 25
+		}
 	}
 	multi := 0
 	for _, n := range rollovers {
